@@ -115,3 +115,25 @@ Definition valid_block (ct : content) (slot : N) (h : blockhash) (p : blockid) :
     (forall i r, In (i, r) sl -> content_of ct (rs_root r) = DecOk (rs_parent r) true) /\
     alookup 0 sl = Some first /\ rs_parent first = Some p0 /\
     walk_slices sl p0 false = Some p /\ fst p < slot.
+
+(* ---------- the tag guard ("fix: do not blame the leader for a shred whose type contradicts its index") ---------- *)
+(* the same shred with its (unsigned) data / coding tag flipped *)
+Definition flip_tag (s : bshred) : bshred :=
+  mkBS (b_slice s) (b_last s) (b_root s) (b_index s) (negb (b_is_data s)) (b_size s).
+(* an honest shred of the block, or ANY shred whose tag contradicts its index (e.g. an honest one flipped in
+   transit) *)
+Definition honest_or_flipped (hb : hblock) (s : bshred) : bool := honest_shred hb s || negb (shred_tag_ok s).
+(* the dissemination run with the guard selectable: [true] = current tree (= bs_dissem_run), [false] = pinned *)
+Definition bs_dissem_step_gen (tagchk : bool) (ct : content) (slot : N) (acc : slotdata * list (bs_ret * list bevent)) (s : bshred) :=
+  let '(sd', r, ev) := bs_step_gen tagchk true ct slot (fst acc) (BDissem s) in (sd', snd acc ++ [(r, ev)]).
+Definition bs_dissem_run_gen (tagchk : bool) (ct : content) (slot : N) (l : list bshred) : slotdata * list (bs_ret * list bevent) :=
+  fold_left (bs_dissem_step_gen tagchk ct slot) l (sd_empty, []).
+(* the outputs of a run over [l], given the outputs [outs] of the run over the tag-consistent shreds of [l]:
+   every tag-inconsistent shred is answered InvalidShred without an event, the others as if it had not been there *)
+Fixpoint weave_refusals (l : list bshred) (outs : list (bs_ret * list bevent)) : list (bs_ret * list bevent) :=
+  match l with
+  | [] => []
+  | s :: t => if shred_tag_ok s
+              then match outs with o :: os => o :: weave_refusals t os | [] => [] end
+              else (BRErr EInvalidShred, []) :: weave_refusals t outs
+  end.
